@@ -580,6 +580,23 @@ pub mod verif_hooks {
         Ok(report)
     }
 
+    /// One round of the production loop over the live members (`repair_members`, what every tick
+    /// of `replication_cycle` runs after it has drained its queue).
+    pub async fn repair_members_once<S: Storage>(
+        group: KeyspaceGroup<S>,
+        network: RpcNetwork,
+        tracker: &mut Tracker,
+        live_members: &BTreeMap<NodeId, SocketAddr>,
+    ) {
+        let ctx = ReplicationCycleContext {
+            repair_interval: Duration::from_secs(1),
+            group,
+            network,
+        };
+
+        repair_members(&ctx, live_members, &mut tracker.0).await;
+    }
+
     /// The production path of one exchange (`begin_keyspace_sync`: both halves run concurrently).
     pub async fn repair_peer_concurrent<S: Storage>(
         group: KeyspaceGroup<S>,
